@@ -6,9 +6,10 @@
 use repe::{ErrorCode, Message, QueryFormat, Registry, RegistryError, Router};
 use repe_verif_harness::*;
 use serde_json::{Map, Value};
-use std::sync::atomic::{AtomicU64, Ordering};
+use std::cell::RefCell;
+use std::sync::atomic::{AtomicU64, AtomicUsize, Ordering};
 use std::sync::{Arc, Barrier, Mutex};
-use std::time::Duration;
+use std::time::{Duration, Instant};
 
 // ---------- value <-> text ----------
 fn enc(v: &Value, out: &mut String) {
@@ -92,11 +93,46 @@ fn unit_out(r: Result<(), RegistryError>) -> (String, String) {
 fn val_out(r: Result<Value, RegistryError>) -> (String, String) {
     match r { Ok(v) => (format!("k{}", enc_s(&v)), "-".into()), Err(e) => (format!("e{:x}", e.code() as u32), variant(&e).into()) }
 }
+// ---------- callables that re-enter their registry (harness-only: HOW the crate is driven) ----------
+// In a `nest=1` case an operation that invokes a callable has the NEXT operation of its own
+// list executed from inside that callable, on the registry the callable is registered in.
+// The registry sees the same operations in the same order as without nesting (a call's only
+// access to the registry state, the table lookup, is over when the callable runs), so the
+// case is judged as the ordinary sequence / history.
+struct NestReq { reg: Arc<Registry>, router: Router, log: Log, op: String, clock: Option<Arc<AtomicU64>>, dwell_us: u64 }
+struct NestDone { mid_root: String, mid_log: String, entered: u64, s: u64, e: u64, out: (String, String, String), log: String }
+thread_local! {
+    /// calls made on this thread since the slot was last taken (a callable runs on the dispatching thread)
+    static OPLOG: RefCell<Vec<(u64, Value)>> = const { RefCell::new(Vec::new()) };
+    static NEST: RefCell<Option<NestReq>> = const { RefCell::new(None) };
+    static NESTED: RefCell<Option<NestDone>> = const { RefCell::new(None) };
+}
+fn take_oplog() -> String { let l = OPLOG.with(|l| std::mem::take(&mut *l.borrow_mut())); log_text(&l) }
+
+fn nested(req: NestReq) {
+    let tick = |c: &Option<Arc<AtomicU64>>| c.as_ref().map(|c| c.fetch_add(1, Ordering::SeqCst)).unwrap_or(0);
+    let entered = tick(&req.clock);
+    // sequential cases: the document and the call log as they are when the callable has been entered
+    // (a read of the registry from inside its callable)
+    let (mid_root, mid_log) = if req.clock.is_none() {
+        let r = root_text(&req.reg);
+        let mut l = req.log.lock().unwrap(); let t = log_text(&l); l.clear(); (r, t)
+    } else { (String::new(), take_oplog()) };
+    if req.dwell_us > 0 { let t0 = Instant::now(); while t0.elapsed() < Duration::from_micros(req.dwell_us) { std::hint::spin_loop(); } }
+    let s = tick(&req.clock);
+    let out = run_op(&req.reg, &req.router, &req.log, &req.op);
+    let e = tick(&req.clock);
+    let log = if req.clock.is_none() { log_text(&req.log.lock().unwrap()) } else { take_oplog() };
+    NESTED.with(|n| *n.borrow_mut() = Some(NestDone { mid_root, mid_log, entered, s, e, out, log }));
+}
+
 fn register_fun(reg: &Registry, path: &str, fid: u64, log: &Log) -> Result<(), RegistryError> {
     let log = Arc::clone(log);
     reg.register_function(path, move |params: Option<Value>| {
         let arg = params.unwrap_or(Value::String("<no body>".into()));
         log.lock().unwrap().push((fid, arg.clone()));
+        OPLOG.with(|l| l.borrow_mut().push((fid, arg.clone())));
+        if let Some(req) = NEST.with(|n| n.borrow_mut().take()) { nested(req); }
         if fid % 4 == 3 { Err((ErrorCode::ApplicationErrorBase, "failing callable".to_string())) }
         else { Ok(Value::Array(vec![Value::from(fid), arg])) }
     })
@@ -161,13 +197,29 @@ fn run_seq(f: &std::collections::HashMap<String, String>) -> String {
     let reg = Arc::new(Registry::new());
     let router = match f["pre"].as_str() { "none" => Router::new(), p => Router::new().with_registry(&text(p), Arc::clone(&reg)) };
     let log: Log = Arc::new(Mutex::new(Vec::new()));
+    let nest = f.get("nest").map(|s| s == "1").unwrap_or(false);
     let mut steps = Vec::new();
     if f["ops"] != "-" {
-        for op in f["ops"].split(';') {
+        let ops: Vec<&str> = f["ops"].split(';').collect();
+        let mut i = 0;
+        while i < ops.len() {
             log.lock().unwrap().clear();
-            let (o, v, x) = run_op(&reg, &router, &log, op);
-            let l = log_text(&log.lock().unwrap());
-            steps.push(format!("{}/{}/{}/{}/{}", o, root_text(&reg), l, v, x));
+            if nest && i + 1 < ops.len() {
+                NEST.with(|n| *n.borrow_mut() = Some(NestReq { reg: Arc::clone(&reg), router: router.clone(), log: Arc::clone(&log), op: ops[i + 1].to_string(), clock: None, dwell_us: 0 }));
+            }
+            let (o, v, x) = run_op(&reg, &router, &log, ops[i]);
+            NEST.with(|n| n.borrow_mut().take());
+            if let Some(d) = NESTED.with(|n| n.borrow_mut().take()) {
+                // ops[i] invoked a callable, which ran ops[i+1]
+                steps.push(format!("{}/{}/{}/{}/{}", o, d.mid_root, d.mid_log, v, x));
+                let (no, nv, nx) = d.out;
+                steps.push(format!("{}/{}/{}/{}/{}", no, root_text(&reg), d.log, nv, nx));
+                i += 2;
+            } else {
+                let l = log_text(&log.lock().unwrap());
+                steps.push(format!("{}/{}/{}/{}/{}", o, root_text(&reg), l, v, x));
+                i += 1;
+            }
         }
     }
     format!("steps={}", if steps.is_empty() { "-".into() } else { steps.join(";") })
@@ -206,10 +258,89 @@ fn run_conc(f: &std::collections::HashMap<String, String>) -> String {
     format!("init={} res={} root={} log={}", init, per.join("!"), root_text(&reg), log_text(&log.lock().unwrap()))
 }
 
+/// Concurrent histories, `rounds` of them per case, each on a fresh registry: the threads are
+/// started once and released together at a spinning gate before every round (tight overlap);
+/// a mount (`pre`) is ONE `Router` shared by all threads; per operation the calls made by it
+/// are recorded (`s.e.out.log`); rounds are separated by `@`.
+fn run_conc_rounds(f: &std::collections::HashMap<String, String>) -> String {
+    struct St { reg: Arc<Registry>, router: Router, log: Log, clock: Arc<AtomicU64> }
+    let rounds: usize = usize::from_str_radix(&f["rounds"], 16).unwrap();
+    let nest = f.get("nest").map(|s| s == "1").unwrap_or(false);
+    let dwell_us = f.get("dwell").map(|s| u64::from_str_radix(s, 16).unwrap()).unwrap_or(0);
+    let states: Arc<Vec<St>> = Arc::new((0..rounds).map(|_| {
+        let reg = Arc::new(Registry::new());
+        let router = match f.get("pre").map(|s| s.as_str()) { None | Some("none") => Router::new(), Some(p) => Router::new().with_registry(&text(p), Arc::clone(&reg)) };
+        let log: Log = Arc::new(Mutex::new(Vec::new()));
+        if f["setup"] != "-" { for op in f["setup"].split(';') { let _ = run_op(&reg, &router, &log, op); } }
+        log.lock().unwrap().clear();
+        St { reg, router, log, clock: Arc::new(AtomicU64::new(1)) }
+    }).collect());
+    let init = root_text(&states[0].reg);
+    let threads: Vec<Vec<String>> = f["th"].split('!').map(|t| if t == "-" { vec![] } else { t.split(';').map(|s| s.to_string()).collect() }).collect();
+    let nth = threads.len();
+    let arrived = Arc::new(AtomicUsize::new(0));
+    let mut handles = Vec::new();
+    for ops in threads {
+        let (states, arrived) = (Arc::clone(&states), Arc::clone(&arrived));
+        handles.push(std::thread::spawn(move || {
+            let mut all = Vec::new();
+            for (r, st) in states.iter().enumerate() {
+                arrived.fetch_add(1, Ordering::SeqCst);
+                let mut spins = 0u32;
+                while arrived.load(Ordering::SeqCst) < (r + 1) * nth { spins += 1; if spins % 2000 == 0 { std::thread::yield_now(); } else { std::hint::spin_loop(); } }
+                let mut res = Vec::new();
+                let mut j = 0;
+                while j < ops.len() {
+                    let _ = take_oplog();
+                    if nest && j + 1 < ops.len() {
+                        NEST.with(|n| *n.borrow_mut() = Some(NestReq { reg: Arc::clone(&st.reg), router: st.router.clone(), log: Arc::clone(&st.log), op: ops[j + 1].clone(), clock: Some(Arc::clone(&st.clock)), dwell_us }));
+                    }
+                    let s = st.clock.fetch_add(1, Ordering::SeqCst);
+                    let (o, _, _) = run_op(&st.reg, &st.router, &st.log, &ops[j]);
+                    let e = st.clock.fetch_add(1, Ordering::SeqCst);
+                    NEST.with(|n| n.borrow_mut().take());
+                    let lg = take_oplog();
+                    if let Some(d) = NESTED.with(|n| n.borrow_mut().take()) {
+                        // the call's access to the registry (the table lookup) was over when the callable was entered
+                        res.push(format!("{:x}.{:x}.{}.{}", s, d.entered, o, d.mid_log));
+                        res.push(format!("{:x}.{:x}.{}.{}", d.s, d.e, d.out.0, d.log));
+                        j += 2;
+                    } else {
+                        res.push(format!("{:x}.{:x}.{}.{}", s, e, o, lg));
+                        j += 1;
+                    }
+                }
+                all.push(if res.is_empty() { "-".to_string() } else { res.join(";") });
+            }
+            all
+        }));
+    }
+    let mut per: Vec<Vec<String>> = Vec::new();
+    for h in handles { match h.join() { Ok(r) => per.push(r), Err(_) => return "crash=panic".into() } }
+    let res: Vec<String> = (0..rounds).map(|r| per.iter().map(|t| t[r].clone()).collect::<Vec<_>>().join("!")).collect();
+    let roots: Vec<String> = states.iter().map(|st| root_text(&st.reg)).collect();
+    let logs: Vec<String> = states.iter().map(|st| log_text(&st.log.lock().unwrap())).collect();
+    // `log=-` when no callable ran in any round
+    let logs = if logs.iter().all(|l| l == "-") { "-".to_string() } else { logs.join("@") };
+    format!("init={} res={} root={} log={}", init, res.join("@"), roots.join("@"), logs)
+}
+
+/// "a call must return": cases whose callables re-enter the registry run under a watchdog;
+/// the operations take microseconds, the limit is seconds.
+const NEST_LIMIT: Duration = Duration::from_secs(6);
+
 fn run_case(line: &str) -> String {
     let f = fields(line);
-    let r = guard(move || if f["k"] == "conc" { run_conc(&f) } else { run_seq(&f) });
-    r.unwrap_or_else(|_| "crash=panic".into())
+    let watchdog = f.get("nest").map(|s| s == "1").unwrap_or(false);
+    let work = move || {
+        let r = guard(move || if f["k"] == "conc" { if f.contains_key("rounds") { run_conc_rounds(&f) } else { run_conc(&f) } } else { run_seq(&f) });
+        r.unwrap_or_else(|_| "crash=panic".into())
+    };
+    if !watchdog { return work(); }
+    let (tx, rx) = std::sync::mpsc::channel();
+    std::thread::spawn(move || { let _ = tx.send(work()); });
+    // a thread that never returns stays parked on the lock it waits for (its registry is private to the case)
+    rx.recv_timeout(NEST_LIMIT).unwrap_or_else(|_| "crash=hang".into())
 }
 
 // ---------- generation ----------
@@ -399,6 +530,149 @@ fn gen_cases(seed: u64, thorough: bool) -> Vec<String> {
             ths.push(ops.join(";"));
         }
         cases.push(format!("k=conc setup={} th={}", setup, ths.join("!")));
+    }
+
+    // (5) callables that re-enter the registry they are registered in (nest=1): after a call, the next
+    // operation of the list runs inside the callable -- a read, a write, a registration, a merge,
+    // another call, directly or through the mount.  The sequence is judged as the ordinary sequence;
+    // a call that does not return is observed by the watchdog.
+    {
+        let j = |v: Value| enc_s(&v);
+        let base = format!("V|{}|{};V|{}|i0;F|{}|0;F|{}|1;F|{}|3", hs("/a"), j(serde_json::json!({"b": 1, "c": {"d": 2}})), hs("/n"), hs("/f"), hs("/a/g"), hs("/e"));
+        let outers = [format!("D|{}|i1", hs("/f")), format!("T|{}|ji1", hs("/api/f")), format!("D|{}|i1", hs("/e"))];
+        let inners = [
+            format!("D|{}|i5", hs("/n")), format!("D|{}|_", hs("/n")), format!("R|{}", hs("/a")), format!("V|{}|i6", hs("/n")),
+            format!("A|{}|{}", hs("/a"), j(serde_json::json!({"k": 1}))), format!("M|{}", j(serde_json::json!({"z": [1]}))),
+            format!("F|{}|5", hs("/f")), format!("F|{}|6", hs("/n/h")), format!("D|{}|i2", hs("/a/g")), format!("S|{}", j(serde_json::json!({"n": 9}))),
+            format!("T|{}|ji7", hs("/api/n")), format!("T|{}|_", hs("/api/a/c")), format!("D|{}|{}", hs(""), j(serde_json::json!({"n": 4}))), format!("D|{}|_", hs("/f")),
+        ];
+        for (oi, o) in outers.iter().enumerate() {
+            for (ii, inner) in inners.iter().enumerate() {
+                if oi == 1 && ![0, 1, 4, 10, 11].contains(&ii) || oi == 2 && ![0, 1, 6].contains(&ii) { continue; }
+                cases.push(format!("k=seq pre={} nest=1 ops={base};{o};{inner};D|{}|_;{o};D|{}|i8;D|{}|_", hs("/api"), hs("/n"), hs("/n"), hs("/n")));
+            }
+        }
+        let nnest = if thorough { 100 } else { 8 };
+        for _ in 0..nnest {
+            let ptrs = ["/a", "/a/b", "/a/c", "/a/c/d", "/n", "/f", "/a/g", "/e", "", "/zz"];
+            let len = rng.range(2, 12);
+            let ops: Vec<String> = (0..len).map(|_| {
+                let p = *rng.pick(&ptrs);
+                match rng.below(14) {
+                    0 | 1 | 2 => format!("D|{}|i{:x}", hs(rng.pick(&["/f", "/a/g", "/e"])), rng.below(9)),
+                    3 | 4 => format!("T|{}|ji{:x}", hs(&format!("/api{}", rng.pick(&["/f", "/a/g", "/n"]))), rng.below(9)),
+                    5 | 6 => format!("D|{}|{}", hs(p), j(gen_value(&mut rng, 1))),
+                    7 => format!("D|{}|_", hs(p)),
+                    8 => format!("R|{}", hs(p)),
+                    9 => format!("V|{}|{}", hs(p), j(gen_value(&mut rng, 1))),
+                    10 => format!("F|{}|{:x}", hs(rng.pick(&["/f", "/a/g", "/n", "/a/c"])), rng.below(8)),
+                    11 => format!("A|{}|{}", hs(p), j(Value::Object(gen_map(&mut rng, 1)))),
+                    12 => format!("M|{}", j(Value::Object(gen_map(&mut rng, 1)))),
+                    _ => format!("T|{}|_", hs(&format!("/api{p}"))),
+                }
+            }).collect();
+            cases.push(format!("k=seq pre={} nest=1 ops={base};{}", hs("/api"), ops.join(";")));
+        }
+    }
+
+    // (6) merges racing writes to sibling keys: merge_at into an object with many keys (so that
+    // whatever merge_at does with the object takes long) while other threads write and read back
+    // keys below the same object; every round must have a sequential order.
+    {
+        let nkeys = 400u64;
+        let mut big = Map::new();
+        for i in 0..nkeys { big.insert(format!("k{i:03}"), Value::from(i)); }
+        big.insert("sub".into(), serde_json::json!({"x": 0, "y": 0}));
+        let setup = format!("V|{}|{};V|{}|i0;F|{}|0", hs("/cfg"), enc_s(&Value::Object(big)), hs("/n"), hs("/f"));
+        let nmrg = if thorough { 200 } else { 32 };
+        for c in 0..nmrg {
+            let nth = rng.range(2, 4);
+            let nmerge = if nth == 2 { 1 } else { rng.range(1, 2) };
+            let mut ths = Vec::new();
+            for t in 0..nth {
+                let nops = rng.range(2, 4);
+                let mut ops: Vec<String> = Vec::new();
+                if t < nmerge {
+                    for q in 0..nops {
+                        let mut m = Map::new();
+                        m.insert(if rng.chance(1, 2) { "tick".to_string() } else { format!("t{t}") }, Value::from(c * 16 + q));
+                        if rng.chance(1, 3) { m.insert(format!("k{:03}", rng.below(nkeys)), Value::from(1000 + q)); }
+                        let target = if rng.chance(1, 6) { "/cfg/sub" } else { "/cfg" };
+                        ops.push(format!("A|{}|{}", hs(target), enc_s(&Value::Object(m))));
+                    }
+                } else {
+                    while (ops.len() as u64) < nops {
+                        let key = if rng.chance(1, 5) { format!("/cfg/sub/{}", rng.pick(&["x", "y", "z"])) } else { format!("/cfg/k{:03}", rng.below(nkeys)) };
+                        ops.push(format!("D|{}|i{:x}", hs(&key), 2000 + rng.below(1000)));
+                        if (ops.len() as u64) < nops && rng.chance(3, 4) { ops.push(if rng.chance(1, 2) { format!("D|{}|_", hs(&key)) } else { format!("R|{}", hs(&key)) }); }
+                    }
+                }
+                ths.push(ops.join(";"));
+            }
+            cases.push(format!("k=conc rounds={:x} setup={} th={}", if thorough { 12 } else { 8 }, setup, ths.join("!")));
+        }
+    }
+
+    // (7) re-registration of a callable racing calls through ONE Router::with_registry mount: the set
+    // of callable pointers is fixed by the setup, only the callable behind a pointer changes; a call
+    // that starts after register_function returned must run the new callable (real-time order).
+    {
+        let setup = format!("V|{}|i0;F|{}|0;F|{}|1", hs("/n"), hs("/f"), hs("/h"));
+        let nreg = if thorough { 240 } else { 48 };
+        for _ in 0..nreg {
+            let nth = rng.range(3, 4);
+            let nregs = rng.range(1, 2);
+            let mut fid = 4u64;
+            let mut arg = 0u64;
+            let mut ths = Vec::new();
+            for t in 0..nth {
+                let nops = if t < nregs { 4 } else { rng.range(3, 4) };
+                let ops: Vec<String> = (0..nops).map(|q| {
+                    arg += 1;
+                    if t < nregs && (q % 2 == 0 || rng.chance(1, 4)) {
+                        fid += 4;
+                        format!("F|{}|{:x}", hs(if rng.chance(1, 8) { "/h" } else { "/f" }), fid + rng.below(3))
+                    } else {
+                        match rng.below(16) {
+                            0 => format!("D|{}|i{:x}", hs("/f"), arg),
+                            1 => format!("T|{}|ji{:x}", hs("/api/h"), arg),
+                            2 => format!("T|{}|_", hs("/api/n")),
+                            3 => format!("T|{}|ji{:x}", hs("/api/n"), arg),
+                            _ => format!("T|{}|ji{:x}", hs("/api/f"), arg),
+                        }
+                    }
+                }).collect();
+                ths.push(ops.join(";"));
+            }
+            cases.push(format!("k=conc rounds={:x} pre={} setup={} th={}", if thorough { 400 } else { 250 }, hs("/api"), setup, ths.join("!")));
+        }
+    }
+
+    // (8) concurrent histories whose callables re-enter the registry (nest=1): a call whose callable
+    // stays a while (dwell, microseconds) and then reads or writes the registry, while other threads
+    // write; every call must return and the history must have a sequential order.
+    {
+        let setup = format!("V|{}|{};V|{}|i0;F|{}|0;F|{}|1", hs("/a"), enc_s(&serde_json::json!({"b": 1})), hs("/n"), hs("/f"), hs("/a/g"));
+        let nn = if thorough { 40 } else { 8 };
+        for c in 0..nn {
+            let nth = rng.range(2, 4);
+            let mut ths = Vec::new();
+            for t in 0..nth {
+                let mut ops: Vec<String> = Vec::new();
+                if t == 0 || rng.chance(1, 4) {
+                    for _ in 0..2 {
+                        ops.push(format!("D|{}|i{:x}", hs(rng.pick(&["/f", "/a/g"])), rng.below(8)));
+                        ops.push(match (c + t) % 3 { 0 => format!("D|{}|_", hs("/n")), 1 => format!("R|{}", hs("/a")), _ => format!("D|{}|i{:x}", hs("/a/b"), 10 + rng.below(5)) });
+                    }
+                } else {
+                    for _ in 0..rng.range(2, 4) {
+                        ops.push(match rng.below(4) { 0 => format!("D|{}|_", hs("/n")), 1 => format!("D|{}|i{:x}", hs("/a/b"), 20 + rng.below(5)), _ => format!("D|{}|i{:x}", hs("/n"), 30 + rng.below(5)) });
+                    }
+                }
+                ths.push(ops.join(";"));
+            }
+            cases.push(format!("k=conc rounds={:x} nest=1 dwell={:x} setup={} th={}", 16, rng.pick(&[0u64, 20, 60]), setup, ths.join("!")));
+        }
     }
     cases.into_iter().enumerate().map(|(i, c)| format!("i={i:x} {c}")).collect()
 }
